@@ -13,6 +13,7 @@ import asyncio
 import io
 import json
 import os
+import signal
 import sys
 import warnings
 import contextlib
@@ -48,6 +49,10 @@ class VExc(Exception):
         else:
             super().__init__(*message)
         self.origin = origin
+
+
+class VRuntimeExc(VExc, RuntimeError):
+    """same, but a RuntimeError (callers sometimes treat those specially)"""
 
 
 class Ret:
@@ -124,7 +129,8 @@ class Ctx:
             self.log("raise", node)
             self.stall(node)
             # an exception may carry no message at all (a bare assert, TimeoutError())
-            raise VExc(node, () if self.h.get("emptymsg") else None)
+            klass = VRuntimeExc if self.h.get("rterr") else VExc
+            raise klass(node, () if self.h.get("emptymsg") else None)
         self.log("end", node)
         self.stall(node)
         return self.ret[node]
@@ -465,8 +471,25 @@ def horizon_of(cfg):
     return tot
 
 
+class WallClock(BaseException):
+    """the scenario is taking real time: the library left the virtual loop, or spins"""
+
+
+def _alarm(_signum, _frame):
+    raise WallClock()
+
+
 def run_scenario(sc):
     """returns the trace (dict) of one scenario"""
+    signal.signal(signal.SIGALRM, _alarm)
+    signal.setitimer(signal.ITIMER_REAL, 20)
+    try:
+        return _run_scenario(sc)
+    finally:
+        signal.setitimer(signal.ITIMER_REAL, 0)
+
+
+def _run_scenario(sc):
     ctx = Ctx(sc)
     loop = VirtualLoop()
     ctx.loop = loop
@@ -490,7 +513,7 @@ def run_scenario(sc):
                               "cancelled" if val == "cancelled" else "other"), 0
             except Deadlock:
                 topv, topi = "deadlock", 0
-            except Livelock:
+            except (Livelock, WallClock):
                 topv, topi = "livelock", 0
             except BaseException as exc:                # pylint: disable=W0703
                 topv, topi = ctx.exc_tag(exc)
